@@ -13,7 +13,7 @@ def main():
     log = subprocess.run(["git", "-C", "/repo", "log", "--reverse", "--format=%h|%s"], capture_output=True, text=True).stdout.splitlines()
     subj = {l.split("|", 1)[0]: l.split("|", 1)[1] for l in log if "|" in l}
     out = []
-    out.append("### 5.1 Genuine defects repaired in /repo (one `fix:` commit per root cause)\n")
+    out.append("### A.1 Genuine defects repaired in /repo (one `fix:` commit per root cause)\n")
     out.append("| Prop. | commit | what failed (input / call site) |")
     out.append("|---|---|---|")
     seen = set()
@@ -26,12 +26,12 @@ def main():
     missing = [h for h, s in subj.items() if s.startswith("fix:") and h not in seen]
     if missing:
         out.append("\nfix commits not referenced by a `fixed:` line: " + ", ".join(missing))
-    out.append("\n### 5.2 Known findings (genuine, recorded, not repaired)\n")
+    out.append("\n### A.2 Known findings (genuine, recorded, not repaired)\n")
     for l in kf:
         if l.startswith("known:"):
             m = re.match(r"known: property=(\S+) sig=(\S+) (.*)", l)
             out.append(f"* **{m.group(1)}** `{m.group(2)}` - {m.group(3)}")
-    out.append("\n### 10.1 Seeded changes (written by independent sub-agents from the property text only) and the checks that catch them\n")
+    out.append("\n### A.3 Seeded changes (written by independent sub-agents from the property text only) and the checks that catch them\n")
     out.append("| seed | breaks | needs to manifest | check result | caught by |")
     out.append("|---|---|---|---|---|")
     for d in sorted((V / "seeded").iterdir()):
